@@ -59,6 +59,25 @@ pub fn probes(z: &Zone, dense: bool) -> Vec<i64> {
 
 /// compare real offsets with the reference on every probe of one file
 fn case_file(name: &str, bytes: &[u8], z: &Zone, dense: bool, acc: &mut Acc) {
+    case_file_inner(name, bytes, z, dense, acc);
+    // purity probe: a fixed well-formed file is looked up again after every file
+    use std::sync::OnceLock;
+    static ANCHOR: OnceLock<(Vec<u8>, Vec<i64>, Vec<i32>)> = OnceLock::new();
+    let (ab, ats, want) = ANCHOR.get_or_init(|| {
+        let rule = rz::parse_posix_tz("EST5EDT,M3.2.0,M11.1.0", false);
+        let az = Zone { version: 2, transitions: vec![(-1_000_000_000, 1), (954_032_400, 2), (972_781_200, 1)], types: vec![(-17_762, false, 0), (-18_000, false, 4), (-14_400, true, 8)], footer: rule, footer_text: "EST5EDT,M3.2.0,M11.1.0".into(), leaps: 0, indicators: false };
+        let ts = vec![0i64, 960_000_000, 1_000_000_000, 1_720_000_000, 1_735_000_000];
+        let want = ts.iter().map(|t| rz::offset_at(&az, *t).unwrap_or(i32::MIN)).collect();
+        (rz::write_tzif(&az), ts, want)
+    });
+    acc.transitions += 1;
+    let got = call(|| astrolabe::verif_hooks::tzif_offsets(ab, ats));
+    if got != Out::Val(Ok(want.clone())) {
+        acc.violation("TZif lookup (purity probe)", "anchor-file-answered-differently-after-another-file", json!({"kind": "file", "name": name, "t": 0, "bytes_hex": if bytes.len() <= 600 { hex(bytes) } else { String::new() }}), format!("{:?}", want), got.show());
+    }
+}
+
+fn case_file_inner(name: &str, bytes: &[u8], z: &Zone, dense: bool, acc: &mut Acc) {
     let ts = probes(z, dense);
     acc.states += 1;
     acc.transitions += ts.len() as u64;
